@@ -1,11 +1,22 @@
 // C04: SignalEvent over two loops on two threads, driven in lock-step (engine H, fork per evaluation).
-// usage: harness <engine> <depth> <sentinel: 0 none(SIG_IGN), 1 plain handler, 2 SA_SIGINFO handler>
+// usage: harness <engine> <depth> <cfg 0..2> <lane A|B|C|Ci>
+//   cfg  = pre-subscription dispositions of (SIGUSR1, SIGUSR2): 0 (SIG_IGN, SIG_DFL)  1 (plain handler, SA_SIGINFO handler)  2 (SIG_DFL, plain handler);
+//          every signal has its OWN handler function, sa_mask and sa_flags, so a save/restore/invoke through the other signal's slot is visible.
+//   lane = A: enable/disable/destroy on e0..e4 + single deliveries raised on the controller thread
+//          B: enable/disable on e0..e4 + deliveries raised ON a loop thread, and several deliveries before one pass (2 equal, 2 mixed, 11, 21: more than one read() of 10)
+//          C: re-subscription lane: enable/disable on e0,e1,e2 + enable e5 (e5 = {SIGKILL}: sigaction() fails, enable() must report false and subscribe nothing)
+//             + single deliveries; the state key additionally holds "loop l dropped its last subscriber before" / "signal s was restored before" (saturating at 1)
+//             and "deferred tasks are still queued on loop l", so tear-down -> (pass | no pass) -> subscribe again -> deliveries is explored
+//          Ci: as C, but every enable/disable is issued from a runNext task inside a kOnce pass of its loop (ordinary in-loop callback)
+// DESIGN 1.7 reading: subscription changes are made between deliveries, never inside a signal callback (apart from the one-shot's own self-disable).
 #include "hist/hist.h"
 #include <tbox/event/loop.h>
 #include <tbox/event/signal_event.h>
+#include <tbox/event/fd_event.h>
 #include <tbox/event/common_loop.h>
 #include <tbox/event/common_loop_signal.cpp>     // as source: gives access to the file-local _signal_ctxs_
 #include <condition_variable>
+#include <sstream>
 #include <mutex>
 #include <thread>
 #include <signal.h>
@@ -17,20 +28,69 @@ using namespace tbox::event;
 enum K { ENABLE, DISABLE, DESTROY, RAISE };
 struct Op { int k, a; };
 static const char *kN[] = {"enable", "disable", "destroy", "raise"};
-static const int SIGS[2] = {SIGUSR1, SIGUSR2};
-static const int NE = 5;
-// event -> (loop, signals bitmask, oneshot); e4 is a one-shot event on a two-signal set
-static const int EV_LOOP[NE] = {0, 0, 1, 1, 0}; static const int EV_SIGS[NE] = {1, 3, 1, 2, 3}; static const bool EV_ONESHOT[NE] = {false, false, true, false, true};
+static const int NS = 4; static const int SIGS[NS] = {SIGUSR1, SIGUSR2, SIGKILL, SIGSTOP};
+static const int NE = 7;
+// event -> (loop, signals bitmask, oneshot); e4 is a one-shot event on a two-signal set; e5 subscribes SIGKILL only (its enable() must fail);
+// e6 subscribes {SIGUSR1, SIGSTOP} (the uncatchable one comes second in the set; enable() must fail as a whole) and is only operated when the switch C04_MIXED_UNCATCHABLE_SET=1 is set (default off, see below)
+static const int EV_LOOP[NE] = {0, 0, 1, 1, 0, 0, 0}; static const int EV_SIGS[NE] = {1, 3, 1, 2, 3, 4, 9}; static const bool EV_ONESHOT[NE] = {false, false, true, false, true, false, false};
+static const bool EV_FAILS[NE] = {false, false, false, false, false, true, true};     // POSIX: sigaction(SIGKILL | SIGSTOP) = EINVAL
+// which initialize() overload builds the event: 0 (int, Mode)  1 (initializer_list, Mode)  2 (std::set, Mode)
+static const int EV_INIT[NE] = {0, 1, 0, 0, 2, 0, 2};
+// DEFECT SWITCH (default off so that the tree stays quiet): with C04_MIXED_UNCATCHABLE_SET=1 lane C also offers enable(e6)/destroy(e6).
+// On the current code enable(e6) returns false but leaves SIGUSR1 subscribed for an event that reports isEnabled()==false; neither disable() nor the
+// destructor unsubscribes it, so the disposition of SIGUSR1 is never restored and a delivery after destroy(e6) calls into the freed event.
+static bool g_replay_keep_going = false;      // replay mode only (C04_REPLAY_KEEP_GOING=1): report a violation and carry on with the history
+static bool mixed_uncatchable_set() { const char *e = getenv("C04_MIXED_UNCATCHABLE_SET"); return e && *e == '1'; }
 
-static volatile sig_atomic_t g_sentinel_calls = 0;
-static void sentinel_plain(int) { g_sentinel_calls++; }
-static void sentinel_info(int, siginfo_t *, void *) { g_sentinel_calls++; }
+// delivery scripts: all deliveries of a script happen before the loops get one pass each
+struct Script { const char *name; int where; std::vector<int> sigs; };     // where: -1 controller thread, l = thread of loop l
+static std::vector<Script> make_scripts() {
+  std::vector<Script> v;
+  v.push_back({"USR1", -1, {0}}); v.push_back({"USR2", -1, {1}});
+  v.push_back({"USR1@L0thread", 0, {0}}); v.push_back({"USR2@L1thread", 1, {1}});
+  v.push_back({"USR1,USR1", -1, {0, 0}}); v.push_back({"USR1,USR2", -1, {0, 1}});
+  { Script s{"10xUSR1,USR2", -1, {}}; for (int i = 0; i < 10; i++) s.sigs.push_back(0); s.sigs.push_back(1); v.push_back(s); }
+  { Script s{"21x(USR2,USR1..)", -1, {}}; for (int i = 0; i < 21; i++) s.sigs.push_back(i % 2 ? 0 : 1); v.push_back(s); }
+  return v;
+}
+static const std::vector<Script> SCRIPTS = make_scripts();
+
+// pre-subscription dispositions
+enum Kind { K_IGN, K_DFL, K_PLAIN, K_INFO };
+static const Kind CFG[3][2] = {{K_IGN, K_DFL}, {K_PLAIN, K_INFO}, {K_DFL, K_PLAIN}};
+static volatile sig_atomic_t g_calls[2] = {0, 0}, g_bad[2] = {0, 0};
+template <int I> static void sentinel_plain(int signo) { g_calls[I]++; if (signo != SIGS[I]) g_bad[I] = 1; }
+template <int I> static void sentinel_info(int signo, siginfo_t *si, void *uc) { g_calls[I]++; if (signo != SIGS[I] || !si || si->si_signo != signo || !uc) g_bad[I] = 1; }
+
+// reference model: pure function of the history (also used by the menu)
+struct Model {
+  bool alive[NE], en[NE]; int gen[2], cyc[NS];      // gen[l]: loop l has dropped its last subscriber at least once; cyc[s]: signal s has been installed and restored at least once
+  Model() { for (int e = 0; e < NE; e++) { alive[e] = true; en[e] = false; } gen[0] = gen[1] = 0; for (int s = 0; s < NS; s++) cyc[s] = 0; }
+  bool live(int e) const { return alive[e] && en[e]; }
+  bool subS(int s) const { for (int e = 0; e < NE; e++) if (live(e) && (EV_SIGS[e] & (1 << s))) return true; return false; }
+  bool subL(int l) const { for (int e = 0; e < NE; e++) if (live(e) && EV_LOOP[e] == l) return true; return false; }
+  void apply(const Op &o) {
+    bool bl[2] = {subL(0), subL(1)}, bs[NS]; for (int s = 0; s < NS; s++) bs[s] = subS(s);
+    switch (o.k) {
+      case ENABLE: if (alive[o.a] && !EV_FAILS[o.a]) en[o.a] = true; break;
+      case DISABLE: en[o.a] = false; break;
+      case DESTROY: alive[o.a] = false; en[o.a] = false; break;
+      case RAISE: { int mask = 0; for (int s : SCRIPTS[o.a].sigs) mask |= 1 << s; for (int e = 0; e < NE; e++) if (live(e) && EV_ONESHOT[e] && (EV_SIGS[e] & mask)) en[e] = false; } break;
+    }
+    for (int l = 0; l < 2; l++) if (bl[l] && !subL(l)) gen[l] = 1;
+    for (int s = 0; s < NS; s++) if (bs[s] && !subS(s)) cyc[s] = 1;
+  }
+};
+
+static bool same_mask(const sigset_t &a, const sigset_t &b) { for (int s = 1; s < 65; s++) if (sigismember(&a, s) != sigismember(&b, s)) return false; return true; }
 
 struct Worker {      // one loop on its own thread, executing closures handed over by the controller, one at a time
   Loop *loop = nullptr; std::thread th; std::mutex m; std::condition_variable cv; std::function<void()> job; bool has = false, done = false, quit = false; std::thread::id tid;
-  void start(const std::string &eng) { th = std::thread([this, eng] { loop = Loop::New(eng); tid = std::this_thread::get_id();
+  sigset_t mask0; bool mask_changed = false;       // the thread's signal mask must be the same after every operation as when the thread started
+  void start(const std::string &eng) { th = std::thread([this, eng] { pthread_sigmask(SIG_SETMASK, nullptr, &mask0); loop = Loop::New(eng); tid = std::this_thread::get_id();
       for (;;) { std::function<void()> j; { std::unique_lock<std::mutex> lk(m); cv.wait(lk, [this] { return has || quit; }); if (quit && !has) break; j = job; has = false; }
-        j(); { std::lock_guard<std::mutex> g(m); done = true; } cv.notify_all(); }
+        j(); { sigset_t cur; pthread_sigmask(SIG_SETMASK, nullptr, &cur); if (!same_mask(cur, mask0)) mask_changed = true; }
+        { std::lock_guard<std::mutex> g(m); done = true; } cv.notify_all(); }
       delete loop; }); }
   void exec(std::function<void()> j) { { std::lock_guard<std::mutex> g(m); job = j; has = true; done = false; } cv.notify_all(); std::unique_lock<std::mutex> lk(m); cv.wait(lk, [this] { return done; }); }
   void stop() { { std::lock_guard<std::mutex> g(m); quit = true; } cv.notify_all(); th.join(); }
@@ -39,56 +99,99 @@ struct Worker {      // one loop on its own thread, executing closures handed ov
 static bool same_disposition(const struct sigaction &a, const struct sigaction &b) {
   if ((a.sa_flags & ~SA_RESTORER) != (b.sa_flags & ~SA_RESTORER)) return false;
   if (a.sa_flags & SA_SIGINFO) { if (a.sa_sigaction != b.sa_sigaction) return false; } else if (a.sa_handler != b.sa_handler) return false;
-  for (int s = 1; s < 65; s++) if (sigismember(&a.sa_mask, s) != sigismember(&b.sa_mask, s)) return false;
-  return true;
+  return same_mask(a.sa_mask, b.sa_mask);
 }
 
 int main(int argc, char **argv) {
-  std::string eng = argc > 1 ? argv[1] : "epoll"; size_t depth = argc > 2 ? atoi(argv[2]) : 5; int sentinel = argc > 3 ? atoi(argv[3]) : 1;
-  hx::Explorer<Op> ex; ex.name = eng + "-sentinel" + std::to_string(sentinel); ex.deadline_s = hx::deadline_from_env(600);
+  std::string eng = argc > 1 ? argv[1] : "epoll"; size_t depth = argc > 2 ? atoi(argv[2]) : 5; int cfg = argc > 3 ? atoi(argv[3]) : 1; std::string lane = argc > 4 ? argv[4] : "A";
+  if (cfg < 0 || cfg > 2) cfg = 1;
+  const bool laneB = lane[0] == 'B', laneC = lane[0] == 'C', inloop = lane == "Ci";
+  hx::Explorer<Op> ex; ex.name = eng + "-cfg" + std::to_string(cfg) + "-lane" + lane; ex.deadline_s = hx::deadline_from_env(600);
   ex.fork_workers = (int)hx::env_int("VERIF_WORKERS", 4); ex.check_replay_determinism = true;
-  ex.show = [](const Op &o) { char b[32]; if (o.k == RAISE) snprintf(b, 32, "raise(%s)", o.a ? "USR2" : "USR1"); else snprintf(b, 32, "%s(e%d)", kN[o.k], o.a); return std::string(b); };
-  ex.menu = [&](const std::vector<Op> &) { std::vector<Op> m; for (int e = 0; e < NE; e++) { m.push_back({ENABLE, e}); m.push_back({DISABLE, e}); m.push_back({DESTROY, e}); } m.push_back({RAISE, 0}); m.push_back({RAISE, 1}); return m; };
+  ex.show = [](const Op &o) { char b[48]; if (o.k == RAISE) snprintf(b, 48, "raise(%s)", SCRIPTS[o.a].name); else snprintf(b, 48, "%s(e%d)", kN[o.k], o.a); return std::string(b); };
+  ex.menu = [&](const std::vector<Op> &h) { std::vector<Op> m; Model md; for (auto &o : h) md.apply(o);
+    if (laneC) { for (int e = 0; e < 3; e++) { m.push_back({ENABLE, e}); m.push_back({DISABLE, e}); } m.push_back({ENABLE, 5}); if (mixed_uncatchable_set()) { m.push_back({ENABLE, 6}); m.push_back({DESTROY, 6}); } }
+    else if (laneB) { for (int e = 0; e < 5; e++) { m.push_back({ENABLE, e}); m.push_back({DISABLE, e}); } }
+    else { for (int e = 0; e < 5; e++) { m.push_back({ENABLE, e}); m.push_back({DISABLE, e}); m.push_back({DESTROY, e}); } }
+    for (int i = laneB ? 2 : 0; i < (laneB ? (int)SCRIPTS.size() : 2); i++) {
+      // a delivery of a signal whose disposition is (restored to) SIG_DFL terminates the process: not part of the closed system
+      bool lethal = false; for (int s : SCRIPTS[i].sigs) if (CFG[cfg][s] == K_DFL && !md.subS(s)) lethal = true;
+      if (!lethal) m.push_back({RAISE, i}); }
+    return m; };
   ex.run = [&](const std::vector<Op> &h, std::string &viol) {
-    // pre-subscription disposition (the sentinel); mask/flags deliberately non-trivial so a partial restore is visible
+    // pre-subscription dispositions; handler, mask and flags differ per signal so that a partial or cross-signal restore is visible
     struct sigaction pre[2];
-    for (int i = 0; i < 2; i++) { struct sigaction sa; memset(&sa, 0, sizeof sa); sigemptyset(&sa.sa_mask);
-      if (sentinel == 0) sa.sa_handler = SIG_IGN; else if (sentinel == 1) { sa.sa_handler = sentinel_plain; sigaddset(&sa.sa_mask, SIGHUP); sa.sa_flags = SA_RESTART; } else { sa.sa_sigaction = sentinel_info; sa.sa_flags = SA_SIGINFO | SA_NODEFER; sigaddset(&sa.sa_mask, SIGTERM); }
+    for (int i = 0; i < 2; i++) { struct sigaction sa; memset(&sa, 0, sizeof sa); sigemptyset(&sa.sa_mask); sigaddset(&sa.sa_mask, i == 0 ? SIGHUP : SIGTERM); sa.sa_flags = i == 0 ? SA_RESTART : SA_NODEFER;
+      switch (CFG[cfg][i]) { case K_IGN: sa.sa_handler = SIG_IGN; break; case K_DFL: sa.sa_handler = SIG_DFL; break;
+        case K_PLAIN: sa.sa_handler = i == 0 ? sentinel_plain<0> : sentinel_plain<1>; break;
+        case K_INFO: sa.sa_sigaction = i == 0 ? sentinel_info<0> : sentinel_info<1>; sa.sa_flags |= SA_SIGINFO; break; }
       sigaction(SIGS[i], &sa, nullptr); sigaction(SIGS[i], nullptr, &pre[i]); }
     Worker w[2]; w[0].start(eng); w[1].start(eng); w[0].exec([] {}); w[1].exec([] {});
-    SignalEvent *ev[NE]; bool alive[NE], en[NE]; int calls[NE]; std::string cbviol; std::mutex cbm;
-    for (int e = 0; e < NE; e++) { alive[e] = true; en[e] = false; calls[e] = 0; Worker &wk = w[EV_LOOP[e]];
-      wk.exec([&, e] { ev[e] = wk.loop->newSignalEvent("e"); std::set<int> ss; for (int i = 0; i < 2; i++) if (EV_SIGS[e] & (1 << i)) ss.insert(SIGS[i]);
-        ev[e]->initialize(ss, EV_ONESHOT[e] ? Event::Mode::kOneshot : Event::Mode::kPersist);
-        ev[e]->setCallback([&, e](int signo) { std::lock_guard<std::mutex> g(cbm); calls[e]++;
+    SignalEvent *ev[NE]; Model md; bool snap[NE]; int calls[NE][NS]; std::string cbviol; std::mutex cbm;
+    for (int e = 0; e < NE; e++) { snap[e] = false; for (int s = 0; s < NS; s++) calls[e][s] = 0; Worker &wk = w[EV_LOOP[e]];
+      wk.exec([&, e] { ev[e] = wk.loop->newSignalEvent("e"); Event::Mode mode = EV_ONESHOT[e] ? Event::Mode::kOneshot : Event::Mode::kPersist;
+        if (EV_INIT[e] == 0) { int one = -1; for (int i = 0; i < NS; i++) if (EV_SIGS[e] == (1 << i)) one = SIGS[i]; ev[e]->initialize(one, mode); }
+        else if (EV_INIT[e] == 1) ev[e]->initialize({SIGUSR1, SIGUSR2}, mode);
+        else { std::set<int> ss; for (int i = 0; i < NS; i++) if (EV_SIGS[e] & (1 << i)) ss.insert(SIGS[i]); ev[e]->initialize(ss, mode); }
+        ev[e]->setCallback([&, e](int signo) { std::lock_guard<std::mutex> g(cbm);
           if (std::this_thread::get_id() != w[EV_LOOP[e]].tid) cbviol = "callback-on-wrong-thread e" + std::to_string(e);
-          if (!alive[e] || !en[e]) cbviol = "callback-on-disabled-or-destroyed-event e" + std::to_string(e);
-          int si = signo == SIGUSR1 ? 0 : signo == SIGUSR2 ? 1 : -1; if (si < 0 || !(EV_SIGS[e] & (1 << si))) cbviol = "callback-with-unsubscribed-signal e" + std::to_string(e);
-          if (EV_ONESHOT[e]) { en[e] = false; if (ev[e]->isEnabled()) cbviol = "oneshot-still-enabled-in-callback"; } }); }); }
-    auto subscribed = [&](int si) { for (int e = 0; e < NE; e++) if (alive[e] && en[e] && (EV_SIGS[e] & (1 << si))) return true; return false; };
-    for (auto &o : h) { if (!viol.empty()) break;
+          if (!snap[e]) cbviol = "callback-on-disabled-or-destroyed-event e" + std::to_string(e);      // snap = alive && enabled when the deliveries were made
+          int si = -1; for (int i = 0; i < NS; i++) if (signo == SIGS[i]) si = i;
+          if (si < 0 || !(EV_SIGS[e] & (1 << si))) { cbviol = "callback-with-unsubscribed-signal e" + std::to_string(e); return; }
+          calls[e][si]++;
+          if (EV_ONESHOT[e] && ev[e]->isEnabled()) cbviol = "oneshot-still-enabled-in-callback"; }); }); }
+    auto issue = [&](int e, std::function<void()> f) {      // run a subscription change on the event's loop thread: directly, or from a runNext task inside a kOnce pass
+      Worker &wk = w[EV_LOOP[e]];
+      if (!inloop) wk.exec(f); else wk.exec([&] { wk.loop->runNext(f); wk.loop->runLoop(Loop::Mode::kOnce); }); };
+    for (auto &o : h) { if (!viol.empty()) { if (!g_replay_keep_going) break; printf("@INFO   (replay continues past: %s)\n", viol.c_str()); fflush(stdout); viol.clear(); cbviol.clear(); }
       switch (o.k) {
-        case ENABLE: if (alive[o.a]) { w[EV_LOOP[o.a]].exec([&] { if (!ev[o.a]->enable()) viol = "enable-returned-false"; }); en[o.a] = true; } break;
-        case DISABLE: if (alive[o.a]) { w[EV_LOOP[o.a]].exec([&] { ev[o.a]->disable(); }); en[o.a] = false; } break;
-        case DESTROY: if (alive[o.a]) { w[EV_LOOP[o.a]].exec([&] { delete ev[o.a]; ev[o.a] = nullptr; }); alive[o.a] = false; en[o.a] = false; } break;
+        case ENABLE: if (md.alive[o.a]) { bool r = true; issue(o.a, [&] { r = ev[o.a]->enable(); });
+            if (!EV_FAILS[o.a] && !r) viol = "enable-returned-false"; if (EV_FAILS[o.a] && r) viol = "enable-of-uncatchable-signal-returned-true"; } break;
+        case DISABLE: if (md.alive[o.a]) issue(o.a, [&] { ev[o.a]->disable(); }); break;
+        case DESTROY: if (md.alive[o.a]) issue(o.a, [&] { delete ev[o.a]; ev[o.a] = nullptr; }); break;
         case RAISE: {
-          int si = o.a; bool expect[NE]; for (int e = 0; e < NE; e++) { expect[e] = alive[e] && en[e] && (EV_SIGS[e] & (1 << si)); calls[e] = 0; }
-          bool any = subscribed(si); g_sentinel_calls = 0;
-          raise(SIGS[si]);                                   // delivered to this (controller) thread before raise() returns
+          const Script &sc = SCRIPTS[o.a]; int nd[NS] = {0, 0, 0, 0}; for (int s : sc.sigs) nd[s]++; const int total = (int)sc.sigs.size();
+          bool sub[2] = {md.subS(0), md.subS(1)};
+          for (int e = 0; e < NE; e++) { snap[e] = md.live(e); for (int s = 0; s < NS; s++) calls[e][s] = 0; }
+          for (int i = 0; i < 2; i++) g_calls[i] = g_bad[i] = 0;
+          for (int s : sc.sigs) { if (sc.where < 0) raise(SIGS[s]);            // delivered to this (controller) thread before raise() returns
+            else w[sc.where].exec([&] { raise(SIGS[s]); }); }                 // delivered to the loop's own thread (must not be left blocked there)
           for (int l = 0; l < 2; l++) w[l].exec([&, l] { w[l].loop->runNext([] {}); w[l].loop->runLoop(Loop::Mode::kOnce); });
-          for (int e = 0; e < NE && viol.empty(); e++) { if (expect[e] && calls[e] != 1) viol = "enabled-subscriber-got-" + std::to_string(calls[e]) + "-callbacks e" + std::to_string(e); if (!expect[e] && calls[e] != 0) viol = "non-subscriber-got-a-callback e" + std::to_string(e); }
-          if (viol.empty() && sentinel != 0 && g_sentinel_calls != 1) viol = std::string(any ? "previously-installed-handler-called-" : "restored-handler-called-") + std::to_string((int)g_sentinel_calls) + "-times";
+          std::string tail = total == 1 ? "" : "-after-" + std::to_string(total) + "-deliveries-before-one-pass";
+          for (int e = 0; e < NE && viol.empty(); e++) {
+            if (!snap[e]) { if (calls[e][0] + calls[e][1] + calls[e][2] + calls[e][3]) viol = "non-subscriber-got-a-callback e" + std::to_string(e); continue; }
+            if (EV_ONESHOT[e]) { int want = 0, got = 0; for (int s = 0; s < NS; s++) if (EV_SIGS[e] & (1 << s)) { if (nd[s]) want = 1; got += calls[e][s]; if (calls[e][s] && !nd[s]) viol = "callback-for-a-signal-that-was-not-delivered e" + std::to_string(e); }
+              if (viol.empty() && got != want) viol = (got > 1 ? "oneshot-fired-" + std::to_string(got) + "-times" : "enabled-subscriber-got-" + std::to_string(got) + "-callbacks") + tail + " e" + std::to_string(e); }
+            else for (int s = 0; s < NS && viol.empty(); s++) if (EV_SIGS[e] & (1 << s)) { if (calls[e][s] != nd[s]) viol = (nd[s] == 0 ? std::string("callback-for-a-signal-that-was-not-delivered") : "enabled-subscriber-got-" + std::to_string(calls[e][s]) + "-callbacks" + (nd[s] == 1 ? "" : "-for-" + std::to_string(nd[s]) + "-deliveries")) + " e" + std::to_string(e) + " sig" + std::to_string(s); } }
+          for (int i = 0; i < 2 && viol.empty(); i++) if (CFG[cfg][i] == K_PLAIN || CFG[cfg][i] == K_INFO) {
+            if (g_calls[i] != nd[i]) viol = (nd[i] == 0 ? std::string("handler-of-another-signal-called-") : std::string(sub[i] ? "previously-installed-handler-called-" : "restored-handler-called-")) + std::to_string((int)g_calls[i]) + "-times" + (nd[i] > 1 ? "-for-" + std::to_string(nd[i]) + "-deliveries" : "") + " sig" + std::to_string(i);
+            else if (g_bad[i]) viol = "previously-installed-handler-got-wrong-arguments sig" + std::to_string(i); }
           if (viol.empty() && !cbviol.empty()) viol = cbviol;
         } break; }
-      for (int e = 0; e < NE && viol.empty(); e++) if (alive[e]) { bool ie = false; w[EV_LOOP[e]].exec([&] { ie = ev[e]->isEnabled(); }); if (ie != en[e]) viol = "isEnabled-disagrees e" + std::to_string(e); }
-      for (int si = 0; si < 2 && viol.empty(); si++) if (!subscribed(si)) { struct sigaction cur; sigaction(SIGS[si], nullptr, &cur); if (!same_disposition(cur, pre[si])) viol = std::string("disposition-not-restored-after-last-unsubscribe ") + (si ? "USR2" : "USR1"); }
+      md.apply(o);
+      for (int l = 0; l < 2 && viol.empty(); l++) { std::string iv; w[l].exec([&] { for (int e = 0; e < NE; e++) if (md.alive[e] && EV_LOOP[e] == l && ev[e]->isEnabled() != md.en[e]) iv = "isEnabled-disagrees e" + std::to_string(e); }); viol = iv;
+        if (viol.empty() && w[l].mask_changed) viol = "loop-thread-signal-mask-changed L" + std::to_string(l); }
+      for (int si = 0; si < 2 && viol.empty(); si++) if (!md.subS(si)) { struct sigaction cur; sigaction(SIGS[si], nullptr, &cur); if (!same_disposition(cur, pre[si])) viol = std::string("disposition-not-restored-after-last-unsubscribe ") + (si ? "USR2" : "USR1"); }
     }
-    std::string c; for (int e = 0; e < NE; e++) { c += alive[e] ? (en[e] ? 'E' : 'd') : 'x'; }
-    for (int l = 0; l < 2; l++) { auto *cl = static_cast<CommonLoop *>(w[l].loop); c += "|L" + std::to_string(l) + ":"; for (auto &kv : cl->all_signals_subscribers_) c += std::to_string(kv.first) + "x" + std::to_string(kv.second.size()) + ","; c += (cl->signal_read_fd_ >= 0 ? "P" : "-"); }
+    // canonical state: model (incl. saturating teardown / restore generation counters, so that re-subscription after a teardown is explored) + the implementation's bookkeeping
+    std::string c; for (int e = 0; e < NE; e++) { c += md.alive[e] ? (md.en[e] ? 'E' : 'd') : 'x'; }
+    if (laneC) c += "|g" + std::to_string(md.gen[0]) + std::to_string(md.gen[1]) + "c" + std::to_string(md.cyc[0]) + std::to_string(md.cyc[1]);
+    for (int l = 0; l < 2; l++) { auto *cl = static_cast<CommonLoop *>(w[l].loop); c += "|L" + std::to_string(l) + ":"; for (auto &kv : cl->all_signals_subscribers_) c += std::to_string(kv.first) + "x" + std::to_string(kv.second.size()) + ",";
+      c += (cl->signal_read_fd_ >= 0 ? "P" : "-"); c += cl->sp_signal_read_event_ ? (cl->sp_signal_read_event_->isEnabled() ? "R" : "r") : "-";
+      if (laneC) c += (cl->run_next_func_queue_.size() + cl->run_in_loop_func_queue_.size()) ? "q+" : "q0"; }      // deferred tasks (the postponed delete of the pipe reader) still queued; saturating, the queue length itself is unbounded
     c += "|ctx:"; for (auto &kv : _signal_ctxs_) c += std::to_string(kv.first) + "x" + std::to_string(kv.second.write_fds.size()) + ",";
-    for (int e = 0; e < NE; e++) if (alive[e]) w[EV_LOOP[e]].exec([&] { delete ev[e]; });
+    for (int e = 0; e < NE; e++) if (md.alive[e]) w[EV_LOOP[e]].exec([&] { delete ev[e]; });
+    // every subscriber is destroyed now: both dispositions must be the pre-subscription ones
+    for (int si = 0; si < 2 && viol.empty(); si++) { struct sigaction cur; sigaction(SIGS[si], nullptr, &cur); if (!same_disposition(cur, pre[si])) viol = std::string("disposition-not-restored-after-destroying-every-event ") + (si ? "USR2" : "USR1"); }
     w[0].stop(); w[1].stop();
     return c; };
+  if (argc > 5) { g_replay_keep_going = hx::env_int("C04_REPLAY_KEEP_GOING", 0) == 1;
+         // replay one history given as text, e.g. "enable(e0) disable(e0) enable(e0) raise(USR1)"; prints the canonical state and the violation (if any)
+    std::vector<Op> h; std::string t; std::istringstream is(argv[5]);
+    while (is >> t) { bool ok = false; for (int k = 0; k < 3 && !ok; k++) for (int e = 0; e < NE && !ok; e++) if (t == ex.show({k, e})) { h.push_back({k, e}); ok = true; }
+      for (int i = 0; i < (int)SCRIPTS.size() && !ok; i++) if (t == ex.show({RAISE, i})) { h.push_back({RAISE, i}); ok = true; }
+      if (!ok) { printf("@INFO cannot parse op '%s'\n", t.c_str()); return 0; } }
+    std::string v, c = ex.run(h, v); printf("@INFO replay %s: %s => %s  viol=[%s]\n", ex.name.c_str(), ex.hist_str(h).c_str(), c.c_str(), v.c_str()); return 0; }
   ex.explore(depth);
   return 0;
 }
